@@ -678,10 +678,13 @@ package pdf
 //@   assigns *
 //@   ensures \local_in != nil ==> \local_in.closed
 
+// the filter chain is capped at 8 entries (C08)
 //@ func GetFilters (r, path, dict) (res, err)
-//@   tags C05
+//@   tags C05 C08
 //@   requires r != nil
 //@   assigns *
+//@   ensures err == nil ==> len(res) <= 8
+//@   loop 1: invariant len(\local_res) <= \done && \done <= 8
 
 //@ func DecodeStream (r, path, x) (rd, err)
 //@   tags C05 C08
@@ -838,3 +841,10 @@ package pdf
 //@   requires w != nil && w.w != nil && w.w.w != nil
 //@   assigns *
 //@   ensures err == nil && old(!((ref % 4294967296) in w.xref) || w.xref[ref % 4294967296] == nil || w.xref[ref % 4294967296].InStream == 0) ==> w.origW.seekfails == old(w.origW.seekfails)
+
+// ---- /Filter and /DecodeParms are inlined entry by entry (C11): the arrays keep their length,
+// ---- so that the i-th parameter dictionary still belongs to the i-th filter
+//@ func inlineFilterRefs (r, val) (res, err)
+//@   tags C11
+//@   assigns nothing
+//@   ensures err == nil && \local_ok ==> istype(res, Array) && len(as(res, Array)) == len(\local_arr)
